@@ -25,7 +25,7 @@ pub fn layer_a_check(prop: &str, tier: &str) -> i32 {
     let seed = seed_from_env();
     let (programs, histories) = match (prop, tier) {
         (_, "quick") => (8, 20),
-        (_, _) => (64, 48),
+        (_, _) => (40, 32),
     };
     let programs = std::env::var("BSSIM_PROGRAMS").ok().and_then(|s| s.parse().ok()).unwrap_or(programs);
     let histories = std::env::var("BSSIM_HISTORIES").ok().and_then(|s| s.parse().ok()).unwrap_or(histories);
@@ -115,7 +115,7 @@ pub fn layer_a_check(prop: &str, tier: &str) -> i32 {
 
 pub fn dap_check(prop: &str, tier: &str) -> i32 {
     let seed = seed_from_env();
-    let (programs, histories) = if tier == "quick" { (5, 20) } else { (32, 48) };
+    let (programs, histories) = if tier == "quick" { (5, 20) } else { (20, 36) };
     let programs = std::env::var("BSSIM_PROGRAMS").ok().and_then(|s| s.parse().ok()).unwrap_or(programs);
     let histories = std::env::var("BSSIM_HISTORIES").ok().and_then(|s| s.parse().ok()).unwrap_or(histories);
     let specs: Vec<progen::ProgramSpec> = (0..programs)
@@ -189,7 +189,7 @@ pub fn dap_check(prop: &str, tier: &str) -> i32 {
 
 pub fn layer_b_check(prop: &str, tier: &str) -> i32 {
     let seed = seed_from_env();
-    let histories = if tier == "quick" { if matches!(prop, "C11" | "C14") { 16 } else { 40 } } else { 400 };
+    let histories = if tier == "quick" { if matches!(prop, "C11" | "C14") { 16 } else { 40 } } else { 200 };
     let histories = std::env::var("BSSIM_HISTORIES").ok().and_then(|s| s.parse().ok()).unwrap_or(histories);
     // one interpreter per (toolchain, opt-level)
     let mut specs = vec![];
@@ -257,7 +257,7 @@ pub fn layer_b_check(prop: &str, tier: &str) -> i32 {
 
 pub fn session_check(prop: &str, tier: &str) -> i32 {
     let seed = seed_from_env();
-    let histories = if tier == "quick" { 14 } else { 80 };
+    let histories = if tier == "quick" { 14 } else { 60 };
     let histories = std::env::var("BSSIM_HISTORIES").ok().and_then(|s| s.parse().ok()).unwrap_or(histories);
     let specs: Vec<progen::ProgramSpec> = ["1.89", "stable", "nightly"].iter().map(|tc| crate::session::arena_program(tc)).collect();
     let corpus = orch::build_corpus(specs, false);
@@ -306,7 +306,7 @@ pub fn session_check(prop: &str, tier: &str) -> i32 {
 
 pub fn lib_check(prop: &str, tier: &str) -> i32 {
     let seed = seed_from_env();
-    let (drivers, histories) = if tier == "quick" { (3, 6) } else { (8, 40) };
+    let (drivers, histories) = if tier == "quick" { (3, 6) } else { (8, 30) };
     let histories = std::env::var("BSSIM_HISTORIES").ok().and_then(|s| s.parse().ok()).unwrap_or(histories);
     let corpus = crate::libs::corpus(seed, drivers);
     if corpus.is_empty() {
